@@ -66,7 +66,11 @@ def cases(chk):
         yield "login", {"variant": v, "edge": r.random() < 0.3, "passive": r.random() < 0.4,
                         "cuts": [r.choice(["before-answer", "mid-answer", "after-handshake", "closed-in-read", "bad-answer"]) for _i in range(r.choice([0, 0, 1, 1, 2]))],
                         "corrupt": r.random() < 0.15, "immediate": r.choice([0, 0, 1, 2, 4]) if v == "IK" else 0,
-                        "down": r.randint(0, 5), "up": r.randint(0, 5), "chunk": r.choice([0, 1, 2, 3, 7, 16, 64]), "seed": r.randrange(1 << 30)}
+                        "down": r.randint(0, 5), "up": r.randint(0, 5), "chunk": r.choice([0, 1, 2, 3, 7, 16, 64]), "seed": r.randrange(1 << 30), "vary": int(r.random() < 0.5)}
+    # several logins on one stack with the settings changed in between: each login presents the settings in force THEN
+    for i, cuts in enumerate((["after-handshake"], ["after-handshake", "after-handshake"], ["before-answer", "after-handshake"], ["closed-in-read"], ["bad-answer", "after-handshake"])):
+        for passive in (False, True):
+            yield "login", {"variant": "XX", "edge": False, "passive": passive, "cuts": cuts, "corrupt": False, "immediate": 0, "down": 1, "up": 1, "chunk": 0, "seed": 700 + i, "vary": 1}
 
 
 def nontrivial(stream, case):
@@ -198,7 +202,12 @@ def run_case(chk, stream, case):
         del w.out[:]
         st["fed"] = 0
         coop.log(("connect", st["conn"]))
-        w.stack.emitEvent(YowLayerEvent(YowAuthenticationProtocolLayer.EVENT_AUTH, passive=case["passive"]))
+        # "presents the configured account, passive flag and client attributes": the configuration IN FORCE at this login — with "vary" the
+        # application flips the passive flag and renames itself between the attempts
+        st["passive_now"] = bool(case["passive"]) ^ (bool(case.get("vary")) and st["conn"] % 2 == 0)
+        if case.get("vary"):
+            w.config.pushname = "pn-%d-%d" % (case["seed"] % 1000, st["conn"])
+        w.stack.emitEvent(YowLayerEvent(YowAuthenticationProtocolLayer.EVENT_AUTH, passive=st["passive_now"]))
 
     def pump():
         if len(w.out) > st["fed"]:
@@ -335,8 +344,10 @@ def run_case(chk, stream, case):
         fails.append(oracle("C04:wrong-handshake-variant", "%s: the server saw a %s handshake" % (ctx, srv.variant)))
     p = srv.client_payload
     want_user = int(w.config.phone)
-    if p is None or p.username != want_user or bool(p.passive) != bool(case["passive"]) or p.push_name != w.config.pushname or not p.user_agent.device:
-        fails.append(oracle("C04:wrong-client-payload", "%s: the server was presented username=%s passive=%s pushname=%r" % (ctx, getattr(p, "username", None), getattr(p, "passive", None), getattr(p, "push_name", None))))
+    want_passive = st.get("passive_now", bool(case["passive"]))
+    if p is None or p.username != want_user or bool(p.passive) != bool(want_passive) or p.push_name != w.config.pushname or not p.user_agent.device:
+        fails.append(oracle("C04:wrong-client-payload", "%s: the server was presented username=%s passive=%s pushname=%r at login #%d; configured then: passive=%s pushname=%r"
+                            % (ctx, getattr(p, "username", None), getattr(p, "passive", None), getattr(p, "push_name", None), st["conn"], want_passive, w.config.pushname)))
     if (srv.edge_info is not None) != bool(case["edge"]) or (case["edge"] and srv.edge_info != w.config.edge_routing_info):
         fails.append(oracle("C04:edge-routing-header", "%s: edge routing info at the server: %r" % (ctx, srv.edge_info)))
     stored = YowProfile(w.name).config
